@@ -508,6 +508,14 @@ def _work_sched(args) -> dict:
             one((cs["threads"], [tuple(s) for s in cs["segments"]], cs.get("use", []), cs.get("kinds", [])))
             stats["regress_schedules"] += 1
     mini(strat, n_cases, (seed, "C19", "sched", shard), one)
+    # options of get_converter() (if its signature has any): a thread that works with an optioned converter is stopped inside
+    # its first use while an ordinary thread runs the whole battery, rejected inputs included
+    for flag in flag_kinds(c):
+        everything = list(range(len(battery)))
+        mini(st.tuples(st.one_of(st.integers(1, 120), st.integers(1, 1500)), st.sampled_from(PLAIN_KINDS), st.lists(st.integers(0, len(battery) - 1), min_size=2, max_size=5)),
+             max(2, n_cases // 2), (seed, "C19", "sched-flag", shard, flag),
+             lambda x: one((2, [(0, x[0], 1), (1, 10**6)], x[2] + everything, [flag, x[1]])))
+        stats["option_schedules"] += max(2, n_cases // 2)
     return {"violations": list(ctx.violations.values()), "known_hits": ctx.known_hits, "known_examples": ctx.known_examples,
             "stats": dict(stats), "samples": samples, "distinct": list(distinct), "kind": "sched"}
 
